@@ -84,6 +84,7 @@ PROPS = {
             {"test": "TestC11Rand", "quick": 150, "thorough": 40000, "shards_thorough": 14},
             {"test": "TestC11Backend", "quick": 1, "thorough": 1, "shards_thorough": 14},
             {"test": "TestC11BackendRand", "quick": 400, "thorough": 60000, "shards_thorough": 14},
+            {"test": "TestC11Local", "quick": 1500, "thorough": 200000, "shards_thorough": 14},
             {"test": "TestC11Adapters", "module": "binance", "pkg": "./checks", "quick": 1, "thorough": 1, "timeout_thorough": 1800},
         ],
         "rule": "Full stack (LoudScheme/SilentScheme; BLS, PS and a scripted backend; KeyGen and Sign) under virtual time. For each configuration a "
